@@ -23,7 +23,7 @@ from mc.registry import functionals as FR
 from mc.registry import derived as DV
 
 PROPERTY = 'C07'
-BUDGET = {'quick': 900, 'thorough': 5400}
+BUDGET = {'quick': 1500, 'thorough': 5400}
 INF = float('inf')
 
 QUICK_SPACES = ('rn2x2', 'pw_rn2_2_c', 'pw_rn2_1_c', 'rn3', 'ud3', 'rn3w2', 'rn3wa', 'pw_rn2_2', 'pw_ud2_2', 'nest_rn1_2x2',
